@@ -1,0 +1,24 @@
+//go:build verif
+
+// Package vhook provides named yield points used by the verification harness.
+package vhook
+
+import "sync/atomic"
+
+var hook atomic.Value // of func(string)
+
+// SetHook installs f as the function called at every yield point. Passing nil
+// removes the hook.
+func SetHook(f func(string)) {
+	if f == nil {
+		f = func(string) {}
+	}
+	hook.Store(f)
+}
+
+// Point marks a named yield point and calls the installed hook, if any.
+func Point(name string) {
+	if f, ok := hook.Load().(func(string)); ok {
+		f(name)
+	}
+}
